@@ -238,6 +238,25 @@ def proposerCount (cfg : Cfg) (st : State) (h : Nat) : Nat := (proposerTotals cf
 def idAndAccount (cfg : Cfg) (st : State) (d : DbId) (h : Nat) : List (Bytes × Bytes) :=
   (iter cfg st d).foldl (fun acc m => if active h m then (m.id, toAddr m.account) :: acc.filter (fun e => e.1 ≠ m.id) else acc) []
 
+/-! ## what the consensus layer reads (consensus/access/miner_access.go), always on a committed state -/
+
+/-- `MinerPoolReader.GetCandidateMiners(h)`: `getAllMiner(validator)` skips the entries `Current()` flags (aborted
+    miners), then `CanJoinGroupAt(h)` keeps validators already applied strictly before `h`. -/
+def candidates (cfg : Cfg) (st : State) (h : Nat) : List Miner :=
+  (iter cfg st .val).filter (fun m => m.status ≠ statusAbort ∧ m.typ = typeValidator ∧ m.applyHeight < h)
+
+/-- `convert2MinerDO` logs `md.ID.GetHexString()` when id or public key is not a valid group-signature value (the
+    harness's keys never are); `ID.Serialize` panics ("ID bytes is more than IDLENGTH") when the id, as a big-endian
+    number, needs more than 32 bytes. So one registered, not aborted validator with such an id makes the whole
+    `GetCandidateMiners` call panic. -/
+def idTooLong (id : Bytes) : Bool := (id.dropWhile (· == 0)).length > 32
+
+def candidatesPanic (cfg : Cfg) (st : State) : Bool :=
+  (iter cfg st .val).any (fun m => m.status ≠ statusAbort ∧ idTooLong m.id)
+
+/-- `MinerPoolReader.GetProposeMiner(id)`: the proposer registry's record, whatever its status. -/
+def proposeMiner (cfg : Cfg) (st : State) (id : Bytes) : Option Miner := getMinerById cfg st .prop id
+
 /-! ## writers -/
 
 /-- `MinerManager.UpdateMiner` (Proposal003 active). The registry is chosen by the record's type,
@@ -447,6 +466,10 @@ def endBlock (st : State) (next : Nat) : State :=
   let st := escrowAddAll st st.pending
   let st := checkAndMove st st.height
   { st with trie := st.live, pending := [], height := next }
+
+/-- A block execution that is discarded (cast but not adopted, abandoned fork): the account state falls back to the
+    last block end `committed`; the public-key cache is not part of it and keeps what the discarded block wrote. -/
+def rewind (committed st : State) : State := { committed with pk := st.pk, height := st.height }
 
 inductive Op
   | tx (t : Tx)
